@@ -215,9 +215,17 @@ class C20(core.Check):
             # (often: a placeholder at the end of a line, the sentence goes on in the next line with a capital)
             tail = '' if rnd.random() < .5 else ' %s%s\nTherefore word %s%s\nHence x.' % (
                 rnd.choice(ph['display']), rnd.choice(['', ',', ';', ' ']), rnd.choice(ph['inline']), rnd.choice(['', ';', ':']))
-            yield dict(fam='shell', text=gen_text(rnd, 25) + ' ' + gen_eq_text(rnd, ph) + tail + '\n',
-                       accept=rnd.choice(ACC) + rnd.choice(['', '||']), lang=lang, mode=rnd.choice(['displayed', 'inline', 'all']),
-                       ml=rnd.random() < .3, xml=rnd.choice([None, 'xml', 'xml-b', 'xml-b']),
+            case = dict(fam='shell', text=gen_text(rnd, 25) + ' ' + gen_eq_text(rnd, ph) + tail + '\n',
+                        accept=rnd.choice(ACC) + rnd.choice(['', '||']), lang=lang, mode=rnd.choice(['displayed', 'inline', 'all']),
+                        ml=rnd.random() < .3)
+            if i % 6 == 0:
+                # the combination multi-language + accepted placeholders + all equations, with language-change
+                # placeholders (never an equation) next to equation placeholders, capitals and line ends
+                c1, c2 = rnd.choice(ph['change']), rnd.choice(ph['change'])
+                case.update(ml=True, mode='all', accept=case['accept'].rstrip('|') + '||',
+                            text=case['text'] + 'word %s Word %s %s\nNext %s%s word %s.\n' % (
+                                c1, rnd.choice(ph['display']), c2, rnd.choice(ph['inline']), c1, c2))
+            yield dict(case, xml=rnd.choice([None, 'xml', 'xml-b', 'xml-b']),
                        cfg=rnd.choice([0, 0, 1, 2, 3, 4]),
                        lt=rnd.choice([None, None, r'\S+', r'\w', r'(?<!\S)\S(?!\S)|\S{4,}']))
         for i in range(nsh // 2):
